@@ -87,6 +87,7 @@ var probeFuncs = map[string]bool{
 	"diskwriter.(*diskTrack).Write":      true,
 	"diskwriter.fetch":                   true,
 	"diskwriter.(*diskTrack).writeRTP":   true,
+	"diskwriter.(*diskTrack).setTimeOffset": true,
 	"group.AddClient":                    true,
 	"group.DelClient":                    true,
 	"token.(*state).rewrite":             true,
